@@ -44,20 +44,20 @@ def classify(component, what, case):
     # F28: date-and-time sort callback compares instants only
     if ty == "t:ietf-yang-types:date-and-time" and law in ("sort_consistent_with_eq", "leaflist_order") and case.get("reply", [None] * 3)[2] == "0":
         return "F28"
-    # F50: a JSON string carrying a 64-bit integer is parsed in base 0 (0x.., leading 0 = octal), the other sources in base 10
+    # F63: a JSON string carrying a 64-bit integer is parsed in base 0 (0x.., leading 0 = octal), the other sources in base 10
     if law in ("same_verdict_all_sources", "hints_base") and head in ("i64", "u64") and case.get("route") == "json-string" \
             and re.match(rb"^[ \t\n\r\x0b\x0c]*[-+]?0[0-9xX]", val):
-        return "F50"
-    # F52: lyplg_type_parse_dec64 reads value[len + 1] beyond value_len: "1." is accepted when a digit follows the value
+        return "F63"
+    # F51: lyplg_type_parse_dec64 reads value[len + 1] beyond value_len: "1." is accepted when a digit follows the value
     if head.startswith("d") and val.endswith(b".") and re.fullmatch(rb"[ \t\n\r\x0b\x0c]*[+-]?[0-9]*\.", val, re.S):
         if law == "value_len" and case.get("got") != case.get("alone") and \
                 re.match(rb"[0-9]", unhex(case.get("buffer_hex", "-"))[case.get("value_len", 0):]):
-            return "F52"
+            return "F51"
     if case.get("crash") and " validate_n d" in (case.get("line") or "") and "lyplg_type_parse_dec64" in case.get("stderr", ""):
-        return "F52"
-    # F51: LYB bits value with a bit at an undefined position -> out-of-bounds item pointer
-    if case.get("crash") and " unlyb bits:" in (case.get("line") or "") and "bits.c" in case.get("stderr", ""):
         return "F51"
+    # F64: LYB bits value with a bit at an undefined position -> out-of-bounds item pointer
+    if case.get("crash") and " unlyb bits:" in (case.get("line") or "") and "bits.c" in case.get("stderr", ""):
+        return "F64"
     return None
 
 
